@@ -21,9 +21,13 @@ if cmd == "add":
     what = " ".join(sys.argv[3:])
     os.makedirs(os.path.join(V, "findings"), exist_ok=True)
     name = "%s-%s.json" % (prop, hashlib.sha1(sig.encode()).hexdigest()[:10])
+    # an entry that was FIXED under this signature stays (with its own witness): the same symptom can have a new cause
+    kept_fixed = [f for f in d["findings"] if f["signature"] == sig and f.get("status") == "fixed"]
+    if kept_fixed:
+        name = name.replace(".json", "-%d.json" % (len(kept_fixed) + 1))
     plan["no_avoid"] = True
     json.dump(plan, open(os.path.join(V, "findings", name), "w"), indent=1)
-    d["findings"] = [f for f in d["findings"] if f["signature"] != sig]
+    d["findings"] = [f for f in d["findings"] if f["signature"] != sig or f.get("status") == "fixed"]
     d["findings"].append({"property": prop, "signature": sig, "status": "open", "what": what, "witness": "findings/" + name})
     save()
     print("added", sig)
